@@ -3,6 +3,8 @@ import MahfModel.Model.Aco
 import Mathlib.Algebra.Order.Field.Basic
 import Mathlib.Tactic.Ring
 import Mathlib.Tactic.Linarith
+import Mathlib.Data.List.Nodup
+import Mathlib.Data.List.Perm.Subperm
 set_option linter.unusedSectionVars false
 namespace MahfModel.Aco
 
@@ -331,4 +333,570 @@ theorem asUpdate_spec (pm : PM F) (ρ c : F) (pop : List (Ind F)) (hwf : pm.wf =
   simp [hx, asSpec, getD_of_get? pm hx]
 
 end
+
+/-! ### Max-min update -/
+
+section
+variable [Add F] [Sub F] [Mul F] [Div F] [LT F] [LE F] [DecidableLT F] [DecidableLE F]
+  [OfNat F 0] [OfNat F 1]
+
+theorem firstMinGo_mem :
+    ∀ (l : List (Ind F)) (bi : Ind F) (bv : F) (r : Ind F) (o : F),
+      firstMinGo bi bv l = some (r, o) → bi.obj = some bv → (r = bi ∨ r ∈ l) ∧ r.obj = some o := by
+  intro l
+  induction l with
+  | nil =>
+    intro bi bv r o h hb
+    simp [firstMinGo] at h
+    obtain ⟨rfl, rfl⟩ := h
+    exact ⟨Or.inl rfl, hb⟩
+  | cons x xs ih =>
+    intro bi bv r o h hb
+    simp only [firstMinGo] at h
+    cases hx : x.obj with
+    | none => simp [hx] at h
+    | some v =>
+      simp only [hx] at h
+      split at h
+      · obtain ⟨h1, h2⟩ := ih x v r o h hx
+        exact ⟨Or.inr (by rcases h1 with rfl | h1 <;> simp [*]), h2⟩
+      · obtain ⟨h1, h2⟩ := ih bi bv r o h hb
+        exact ⟨by rcases h1 with rfl | h1 <;> simp [*], h2⟩
+
+theorem firstMin_mem (l : List (Ind F)) (r : Ind F) (o : F) (h : firstMin l = some (r, o)) :
+    r ∈ l ∧ r.obj = some o := by
+  cases l with
+  | nil => simp [firstMin] at h
+  | cons x xs =>
+    simp only [firstMin] at h
+    cases hx : x.obj with
+    | none => simp [hx] at h
+    | some v =>
+      simp only [hx] at h
+      obtain ⟨h1, h2⟩ := firstMinGo_mem xs x v r o h hx
+      exact ⟨by rcases h1 with rfl | h1 <;> simp [*], h2⟩
+
+theorem firstMinGo_isSome :
+    ∀ (l : List (Ind F)) (bi : Ind F) (bv : F), (∀ x ∈ l, x.obj.isSome = true) →
+      (firstMinGo bi bv l).isSome = true := by
+  intro l
+  induction l with
+  | nil => intro bi bv _; simp [firstMinGo]
+  | cons x xs ih =>
+    intro bi bv h
+    obtain ⟨v, hv⟩ := Option.isSome_iff_exists.mp (h x (by simp))
+    simp only [firstMinGo, hv]
+    split
+    · exact ih _ _ (fun y hy => h y (by simp [hy]))
+    · exact ih _ _ (fun y hy => h y (by simp [hy]))
+
+theorem firstMin_isSome (l : List (Ind F)) (hne : l ≠ []) (h : ∀ x ∈ l, x.obj.isSome = true) :
+    (firstMin l).isSome = true := by
+  cases l with
+  | nil => exact absurd rfl hne
+  | cons x xs =>
+    obtain ⟨v, hv⟩ := Option.isSome_iff_exists.mp (h x (by simp))
+    simp only [firstMin, hv]
+    exact firstMinGo_isSome xs x v (fun y hy => h y (by simp [hy]))
+
+/-- `MinMaxPheromoneUpdate` given the rewarded individual. -/
+theorem mmasUpdate_spec (pm : PM F) (ρ hi lo : F) (pop : List (Ind F)) (hwf : pm.wf = true)
+    (ind : Ind F) (o : F) (hmin : firstMin (pop.drop 1) = some (ind, o))
+    (hr : ∀ c ∈ ind.route, c < pm.dim) (hb : lo ≤ hi) :
+    ∃ pm', mmasUpdate pm ρ hi lo pop = some pm' ∧ pm'.dim = pm.dim ∧ pm'.wf = true ∧
+      ∀ i j, i < pm.dim → j < pm.dim → pm'.get? i j = some (mmasSpec pm ρ hi lo pop i j) := by
+  have hw1 : (pm.scale (1 - ρ)).wf = true := by rw [scale_wf]; exact hwf
+  obtain ⟨pm2, h2, hd2, hw2, hg2⟩ :=
+    reward_spec (1 / o) (edges ind.route) (pm.scale (1 - ρ)) hw1 (edgesIn_of_route hr)
+  have hw3 : (PM.wf { pm2 with inner := pm2.inner.map (clamp lo hi) }) = true := by
+    simpa [PM.wf] using hw2
+  refine ⟨{ pm2 with inner := pm2.inner.map (clamp lo hi) }, ?_, hd2, hw3, ?_⟩
+  · have hmin' : firstMin pop.tail = some (ind, o) := by simpa using hmin
+    simp [mmasUpdate, hmin', h2, hb]
+  · intro i j hi' hj'
+    have hd2' : pm2.dim = pm.dim := hd2
+    rw [get?_eq _ hw3 (by simpa [hd2'] using hi') (by simpa [hd2'] using hj')]
+    have e2 := get?_eq pm2 hw2 (hd2' ▸ hi') (hd2' ▸ hj')
+    have e3 := hg2 i j hi' hj'
+    rw [scale_get? pm hwf _ hi' hj'] at e3
+    obtain ⟨x, hx⟩ := get?_isSome pm hwf hi' hj'
+    rw [e3, hx] at e2
+    simp only [List.getElem?_map, ← e2]
+    have hmin' : firstMin pop.tail = some (ind, o) := by simpa using hmin
+    simp [mmasSpec, hmin', getD_of_get? pm hx]
+
+end
+
+/-! ### Ordered-field facts -/
+
+section field
+variable {F : Type} [Field F] [LinearOrder F] [IsStrictOrderedRing F]
+
+theorem clamp_bounds (lo hi x : F) (h : lo ≤ hi) : lo ≤ clamp lo hi x ∧ clamp lo hi x ≤ hi := by
+  unfold clamp
+  split
+  · exact ⟨le_refl _, h⟩
+  · split
+    · exact ⟨h, le_refl _⟩
+    · rename_i h1 h2
+      exact ⟨not_lt.mp h1, not_lt.mp h2⟩
+
+theorem depositEdges_closed (δ : F) (i j : Nat) :
+    ∀ (es : List (Nat × Nat)) (x : F),
+      depositEdges δ i j es x = x + ((es.count (i, j) + es.count (j, i) : Nat) : F) * δ := by
+  intro es
+  induction es with
+  | nil => intro x; simp [depositEdges]
+  | cons e es ih =>
+    intro x
+    obtain ⟨a, b⟩ := e
+    simp only [depositEdges, ih, List.count_cons]
+    by_cases c1 : a = i ∧ b = j <;> by_cases c2 : b = i ∧ a = j
+    · obtain ⟨rfl, rfl⟩ := c1
+      obtain ⟨rfl, _⟩ := c2
+      simp; ring
+    · obtain ⟨rfl, rfl⟩ := c1
+      have : ¬ (b = a) := fun h => c2 ⟨h, h.symm⟩
+      have h2 : ((a, b) == (b, a)) = false := by simp; intro h; exact absurd h.symm this
+      simp [this, h2]; ring
+    · obtain ⟨rfl, rfl⟩ := c2
+      have : ¬ (a = b) := fun h => c1 ⟨h, h.symm⟩
+      have h2 : ((a, b) == (b, a)) = false := by simp; intro h; exact absurd h this
+      simp [this, h2]; ring
+    · have h1 : ((a, b) == (i, j)) = false := by simpa using fun h1 h2 => c1 ⟨h1, h2⟩
+      have h2 : ((a, b) == (j, i)) = false := by simpa using fun h1 h2 => c2 ⟨h2, h1⟩
+      simp [c1, c2, h1, h2]
+
+theorem depositEdges_symm (δ : F) (i j : Nat) (es : List (Nat × Nat)) (x : F) :
+    depositEdges δ i j es x = depositEdges δ j i es x := by
+  rw [depositEdges_closed, depositEdges_closed, Nat.add_comm]
+
+theorem depositEdges_nonneg (δ : F) (hδ : 0 ≤ δ) (i j : Nat) (es : List (Nat × Nat)) (x : F) (hx : 0 ≤ x) :
+    0 ≤ depositEdges δ i j es x := by
+  rw [depositEdges_closed]
+  positivity
+
+
+theorem asSpecGo_closed (c : F) (i j : Nat) :
+    ∀ (l : List (Ind F)) (x : F), (∀ ind ∈ l, ind.obj.isSome = true) →
+      asSpecGo c i j l x =
+        x + (l.map (fun ind => (hits ind.route i j : F) * (c / ind.obj.getD 1))).sum := by
+  intro l
+  induction l with
+  | nil => intro x _; simp [asSpecGo]
+  | cons ind rest ih =>
+    intro x h
+    obtain ⟨o, ho⟩ := Option.isSome_iff_exists.mp (h ind (by simp))
+    simp only [asSpecGo, ho, List.map_cons, List.sum_cons, Option.getD_some]
+    rw [ih _ (fun y hy => h y (by simp [hy])), depositEdges_closed]
+    simp only [hits]
+    ring
+
+theorem hits_symm (route : List Nat) (i j : Nat) : hits route i j = hits route j i := by
+  simp [hits, Nat.add_comm]
+
+theorem asSpecGo_symm (c : F) (i j : Nat) (l : List (Ind F)) (x : F) (h : ∀ ind ∈ l, ind.obj.isSome = true) :
+    asSpecGo c i j l x = asSpecGo c j i l x := by
+  rw [asSpecGo_closed c i j l x h, asSpecGo_closed c j i l x h]
+  simp only [hits_symm]
+
+theorem asSpecGo_nonneg (c : F) (hc : 0 ≤ c) (i j : Nat) :
+    ∀ (l : List (Ind F)) (x : F), 0 ≤ x → (∀ ind ∈ l, ∃ o, ind.obj = some o ∧ 0 < o) →
+      0 ≤ asSpecGo c i j l x := by
+  intro l
+  induction l with
+  | nil => intro x hx _; simpa [asSpecGo] using hx
+  | cons ind rest ih =>
+    intro x hx h
+    obtain ⟨o, ho, hpos⟩ := h ind (by simp)
+    simp only [asSpecGo, ho]
+    apply ih
+    · exact depositEdges_nonneg _ (div_nonneg hc hpos.le) _ _ _ _ hx
+    · exact fun y hy => h y (by simp [hy])
+
+theorem firstMinGo_le :
+    ∀ (l : List (Ind F)) (bi : Ind F) (bv : F) (r : Ind F) (o : F),
+      firstMinGo bi bv l = some (r, o) → o ≤ bv ∧ ∀ x ∈ l, ∀ v, x.obj = some v → o ≤ v := by
+  intro l
+  induction l with
+  | nil =>
+    intro bi bv r o h
+    simp [firstMinGo] at h
+    obtain ⟨_, rfl⟩ := h
+    simp
+  | cons x xs ih =>
+    intro bi bv r o h
+    simp only [firstMinGo] at h
+    cases hx : x.obj with
+    | none => simp [hx] at h
+    | some v =>
+      simp only [hx] at h
+      split at h
+      · rename_i hlt
+        obtain ⟨h1, h2⟩ := ih x v r o h
+        refine ⟨le_trans h1 hlt.le, ?_⟩
+        intro y hy w hw
+        simp at hy
+        rcases hy with rfl | hy
+        · rw [hx] at hw; injection hw with hw; subst hw; exact h1
+        · exact h2 y hy w hw
+      · rename_i hnlt
+        obtain ⟨h1, h2⟩ := ih bi bv r o h
+        refine ⟨h1, ?_⟩
+        intro y hy w hw
+        simp at hy
+        rcases hy with rfl | hy
+        · rw [hx] at hw; injection hw with hw; subst hw; exact le_trans h1 (not_lt.mp hnlt)
+        · exact h2 y hy w hw
+
+/-- The rewarded individual has the least objective value among the individuals considered. -/
+theorem firstMin_le (l : List (Ind F)) (r : Ind F) (o : F) (h : firstMin l = some (r, o)) :
+    ∀ x ∈ l, ∀ v, x.obj = some v → o ≤ v := by
+  cases l with
+  | nil => simp [firstMin] at h
+  | cons y ys =>
+    simp only [firstMin] at h
+    cases hy : y.obj with
+    | none => simp [hy] at h
+    | some w =>
+      simp only [hy] at h
+      obtain ⟨h1, h2⟩ := firstMinGo_le ys y w r o h
+      intro x hx v hv
+      simp at hx
+      rcases hx with rfl | hx
+      · rw [hy] at hv; injection hv with hv; subst hv; exact h1
+      · exact h2 x hx v hv
+
+end field
+
+/-! ### Greedy route -/
+
+section order
+variable {F : Type} [LinearOrder F]
+
+theorem argmaxGo_spec :
+    ∀ (xs : List F) (i bi : Nat) (bv : F),
+      (argmaxGo dle i bi bv xs = bi ∧ ∀ x ∈ xs, x < bv) ∨
+      (∃ m w, xs[m]? = some w ∧ argmaxGo dle i bi bv xs = i + m ∧ bv ≤ w ∧ (∀ x ∈ xs, x ≤ w) ∧
+        ∀ m' v, m < m' → xs[m']? = some v → v < w) := by
+  intro xs
+  induction xs with
+  | nil => intro i bi bv; left; simp [argmaxGo]
+  | cons x xs ih =>
+    intro i bi bv
+    simp only [argmaxGo, dle, decide_eq_true_eq]
+    split
+    · rename_i hle
+      right
+      rcases ih (i + 1) i x with ⟨hk, hall⟩ | ⟨m, w, hm, hk, hxw, hall, hlater⟩
+      · refine ⟨0, x, by simp, by simpa using hk, hle, ?_, ?_⟩
+        · intro y hy; simp at hy; rcases hy with rfl | hy
+          · exact le_refl _
+          · exact (hall y hy).le
+        · intro m' v hm' hv
+          obtain ⟨n, rfl⟩ : ∃ n, m' = n + 1 := ⟨m' - 1, by omega⟩
+          simp at hv
+          exact hall v (List.mem_of_getElem? hv)
+      · refine ⟨m + 1, w, by simpa using hm, by omega, le_trans hle hxw, ?_, ?_⟩
+        · intro y hy; simp at hy; rcases hy with rfl | hy
+          · exact hxw
+          · exact hall y hy
+        · intro m' v hm' hv
+          obtain ⟨n, rfl⟩ : ∃ n, m' = n + 1 := ⟨m' - 1, by omega⟩
+          simp at hv
+          exact hlater n v (by omega) hv
+    · rename_i hnle
+      have hlt : x < bv := not_le.mp hnle
+      rcases ih (i + 1) bi bv with ⟨hk, hall⟩ | ⟨m, w, hm, hk, hxw, hall, hlater⟩
+      · left
+        refine ⟨hk, ?_⟩
+        intro y hy; simp at hy; rcases hy with rfl | hy
+        · exact hlt
+        · exact hall y hy
+      · right
+        refine ⟨m + 1, w, by simpa using hm, by omega, hxw, ?_, ?_⟩
+        · intro y hy; simp at hy; rcases hy with rfl | hy
+          · exact (lt_of_lt_of_le hlt hxw).le
+          · exact hall y hy
+        · intro m' v hm' hv
+          obtain ⟨n, rfl⟩ : ∃ n, m' = n + 1 := ⟨m' - 1, by omega⟩
+          simp at hv
+          exact hlater n v (by omega) hv
+
+/-- `max_by(total_cmp)` on a linear order: the index of a maximal element, the last one among equals. -/
+theorem argmaxLast_spec (l : List F) (k : Nat) (h : argmaxLast dle l = some k) :
+    ∃ w, l[k]? = some w ∧ (∀ x ∈ l, x ≤ w) ∧ ∀ j v, k < j → l[j]? = some v → v < w := by
+  cases l with
+  | nil => simp [argmaxLast] at h
+  | cons x xs =>
+    simp only [argmaxLast, Option.some.injEq] at h
+    rcases argmaxGo_spec xs 1 0 x with ⟨hk, hall⟩ | ⟨m, w, hm, hk, hxw, hall, hlater⟩
+    · rw [hk] at h; subst h
+      refine ⟨x, by simp, ?_, ?_⟩
+      · intro y hy; simp at hy; rcases hy with rfl | hy
+        · exact le_refl _
+        · exact (hall y hy).le
+      · intro j v hj hv
+        obtain ⟨n, rfl⟩ : ∃ n, j = n + 1 := ⟨j - 1, by omega⟩
+        simp at hv
+        exact hall v (List.mem_of_getElem? hv)
+    · rw [hk] at h; subst h
+      refine ⟨w, by simpa [Nat.add_comm] using hm, ?_, ?_⟩
+      · intro y hy; simp at hy; rcases hy with rfl | hy
+        · exact hxw
+        · exact hall y hy
+      · intro j v hj hv
+        obtain ⟨n, rfl⟩ : ∃ n, j = n + 1 := ⟨j - 1, by omega⟩
+        simp at hv
+        exact hlater n v (by omega) hv
+
+
+variable [OfNat F 0]
+
+theorem pheromones_eq (pm : PM F) (last : Nat) :
+    ∀ (rem : List Nat) (ph : List F), pheromones pm last rem = some ph →
+      ph = rem.map (fun r => pm.getD last r 0) := by
+  intro rem
+  induction rem with
+  | nil => intro ph h; simp [pheromones] at h; simp [h]
+  | cons r rs ih =>
+    intro ph h
+    simp only [pheromones] at h
+    cases hx : pm.get? last r with
+    | none => simp [hx] at h
+    | some x =>
+      cases hr : pheromones pm last rs with
+      | none => simp [hx, hr] at h
+      | some xs =>
+        simp only [hx, hr] at h
+        injection h with h; subst h
+        simp [ih xs hr, PM.getD, hx]
+
+theorem greedyGo_ok (N : Num F) (hN : N.tle = dle) (pm : PM F) :
+    ∀ (fuel : Nat) (route : List Nat) (last : Nat) (remaining t : List Nat),
+      remaining.length ≤ fuel → remaining.Nodup → greedyGo N pm fuel route last remaining = some t →
+      ∃ suffix, t = route ++ suffix ∧ greedyOkGo pm suffix last remaining = true := by
+  intro fuel
+  induction fuel with
+  | zero =>
+    intro route last remaining t hl _ h
+    have : remaining = [] := List.length_eq_zero_iff.mp (Nat.le_zero.mp hl)
+    subst this
+    simp [greedyGo] at h
+    exact ⟨[], by simp [h], by simp [greedyOkGo]⟩
+  | succ fuel ih =>
+    intro route last remaining t hl hnd h
+    simp only [greedyGo] at h
+    split at h
+    · rename_i he
+      have : remaining = [] := by simpa using he
+      subst this
+      simp at h
+      exact ⟨[], by simp [h], by simp [greedyOkGo]⟩
+    · cases hph : pheromones pm last remaining with
+      | none => simp [hph] at h
+      | some ph =>
+        cases hk' : argmaxLast N.tle ph with
+        | none => simp [hph, hk'] at h
+        | some k =>
+          cases hc : remaining[k]? with
+          | none => simp [hph, hk', hc] at h
+          | some c =>
+            simp only [hph, hk', hc] at h
+            obtain ⟨hk, hck⟩ := List.getElem?_eq_some_iff.mp hc
+            have hlen : (remaining.eraseIdx k).length ≤ fuel := by
+              rw [List.length_eraseIdx]; simp [hk]; omega
+            have hnd' : (remaining.eraseIdx k).Nodup := hnd.sublist (List.eraseIdx_sublist _ _)
+            obtain ⟨suffix, ht, hok⟩ := ih _ _ _ _ hlen hnd' h
+            refine ⟨c :: suffix, by simp [ht], ?_⟩
+            have hphe := pheromones_eq pm last remaining ph hph
+            rw [hN] at hk'
+            obtain ⟨w, hw, hall, _⟩ := argmaxLast_spec ph k hk'
+            have hwc : w = pm.getD last c 0 := by
+              rw [hphe] at hw
+              simp [hc] at hw
+              exact hw.symm
+            have herase : remaining.erase c = remaining.eraseIdx k := by
+              rw [← hck]; exact List.Nodup.erase_getElem hnd k hk
+            simp only [greedyOkGo, herase, hok, Bool.and_true, List.all_eq_true, decide_eq_true_eq]
+            intro r hr
+            rw [← hwc]
+            apply hall
+            rw [hphe]
+            exact List.mem_map.mpr ⟨r, hr, rfl⟩
+
+end order
+
+/-! ### The executable permutation predicate -/
+
+theorem isPermFromZero_of_perm (n : Nat) (t : List Nat) (hp : t.Perm (List.range n)) (hh : t.head? = some 0) :
+    isPermFromZero n t = true := by
+  simp only [isPermFromZero, Bool.and_eq_true, beq_iff_eq, List.all_eq_true, List.contains_iff_mem,
+    List.mem_range]
+  refine ⟨⟨hh, by simpa using hp.length_eq⟩, ?_⟩
+  intro c hc
+  exact hp.mem_iff.mpr (List.mem_range.mpr hc)
+
+theorem perm_of_isPermFromZero (n : Nat) (t : List Nat) (h : isPermFromZero n t = true) :
+    t.Perm (List.range n) ∧ t.head? = some 0 := by
+  simp only [isPermFromZero, Bool.and_eq_true, beq_iff_eq, List.all_eq_true, List.contains_iff_mem,
+    List.mem_range] at h
+  obtain ⟨⟨hh, hl⟩, hall⟩ := h
+  refine ⟨?_, hh⟩
+  have hsub : List.range n ⊆ t := fun c hc => hall c (List.mem_range.mp hc)
+  have hsp : (List.range n).Subperm t := List.subperm_of_subset List.nodup_range hsub
+  exact (hsp.perm_of_length_le (by simp [hl])).symm
+
+
+
+/-! ### Generation does not panic in exact arithmetic -/
+
+theorem argmaxGo_lt {F : Type} (tle : F → F → Bool) :
+    ∀ (xs : List F) (i bi : Nat) (bv : F), bi < i → argmaxGo tle i bi bv xs < i + xs.length := by
+  intro xs
+  induction xs with
+  | nil => intro i bi bv h; simpa [argmaxGo] using h
+  | cons x xs ih =>
+    intro i bi bv h
+    simp only [argmaxGo]
+    split
+    · have := ih (i + 1) i x (by omega); simp; omega
+    · have := ih (i + 1) bi bv (by omega); simp; omega
+
+theorem pheromones_isSome {F : Type} (pm : PM F) (hwf : pm.wf = true) (last : Nat) (hl : last < pm.dim) :
+    ∀ rem : List Nat, (∀ r ∈ rem, r < pm.dim) → ∃ ph, pheromones pm last rem = some ph ∧ ph.length = rem.length := by
+  intro rem
+  induction rem with
+  | nil => intro _; exact ⟨[], rfl, rfl⟩
+  | cons r rs ih =>
+    intro h
+    obtain ⟨x, hx⟩ := get?_isSome pm hwf hl (h r (by simp))
+    obtain ⟨ph, hph, hlen⟩ := ih (fun y hy => h y (by simp [hy]))
+    exact ⟨x :: ph, by simp [pheromones, hx, hph], by simp [hlen]⟩
+
+theorem mem_eraseIdx_of_nodup {l : List Nat} (hnd : l.Nodup) {k : Nat} {c : Nat} (hc : l[k]? = some c) :
+    ∀ r, r ∈ l.eraseIdx k → r ∈ l ∧ r ≠ c := by
+  intro r hr
+  obtain ⟨hk, hck⟩ := List.getElem?_eq_some_iff.mp hc
+  rw [← List.Nodup.erase_getElem hnd k hk, hck] at hr
+  have := (List.Nodup.mem_erase_iff hnd).mp hr
+  exact ⟨this.2, this.1⟩
+
+theorem greedyGo_isSome {F : Type} (N : Num F) (pm : PM F) (hwf : pm.wf = true) :
+    ∀ (fuel : Nat) (route : List Nat) (last : Nat) (remaining : List Nat),
+      last < pm.dim → (∀ r ∈ remaining, r < pm.dim) →
+      (greedyGo N pm fuel route last remaining).isSome = true := by
+  intro fuel
+  induction fuel with
+  | zero => intro route last remaining _ _; simp [greedyGo]
+  | succ fuel ih =>
+    intro route last remaining hl hr
+    simp only [greedyGo]
+    split
+    · simp
+    · rename_i hne
+      obtain ⟨ph, hph, hlen⟩ := pheromones_isSome pm hwf last hl remaining hr
+      rw [hph]
+      cases ph with
+      | nil =>
+        have : remaining = [] := List.length_eq_zero_iff.mp (by simpa using hlen.symm)
+        simp [this] at hne
+      | cons x xs =>
+        have hk := argmaxGo_lt N.tle xs 1 0 x (by omega)
+        simp only [argmaxLast]
+        have hk' : argmaxGo N.tle 1 0 x xs < remaining.length := by
+          rw [← hlen]; simp; omega
+        rw [List.getElem?_eq_getElem hk']
+        exact ih _ _ _ (hr _ (List.getElem_mem hk'))
+          (fun r hr' => hr r ((List.eraseIdx_sublist _ _).subset hr'))
+
+section field
+variable {F : Type} [Field F] [LinearOrder F] [IsStrictOrderedRing F]
+
+theorem weights_pos (N : Num F) (hpow : ∀ x a, 0 ≤ x → 0 ≤ N.pow x a) (heps : 0 < N.eps)
+    (pm : PM F) (hwf : pm.wf = true) (hnn : ∀ x ∈ pm.inner, 0 ≤ x) (dist : Nat → Nat → F) (α β : F)
+    (last : Nat) (hl : last < pm.dim) :
+    ∀ rem : List Nat, (∀ r ∈ rem, r < pm.dim ∧ 0 < dist last r) →
+      ∃ ws, weights N pm dist α β last rem = some ws ∧ ws.length = rem.length ∧ ∀ w ∈ ws, 0 < w := by
+  intro rem
+  induction rem with
+  | nil => intro _; exact ⟨[], rfl, rfl, by simp⟩
+  | cons r rs ih =>
+    intro h
+    obtain ⟨hr, hd⟩ := h r (by simp)
+    obtain ⟨x, hx⟩ := get?_isSome pm hwf hl hr
+    obtain ⟨ws, hws, hlen, hpos⟩ := ih (fun y hy => h y (by simp [hy]))
+    refine ⟨_ :: ws, by simp [weights, hx, hws]; rfl, by simp [hlen], ?_⟩
+    intro w hw
+    simp at hw
+    rcases hw with rfl | hw
+    · have h1 : 0 ≤ N.pow x α := hpow x α (hnn x (get?_mem pm hx))
+      have h2 : 0 ≤ N.pow (1 / dist last r) β := hpow _ β (div_nonneg zero_le_one hd.le)
+      have h3 : 0 ≤ N.pow x α * N.pow (1 / dist last r) β := mul_nonneg h1 h2
+      simpa using add_pos_of_nonneg_of_pos h3 heps
+    · exact hpos w hw
+
+theorem foldl_add_pos : ∀ (l : List F) (a : F), 0 < a → (∀ w ∈ l, 0 < w) → 0 < l.foldl (· + ·) a := by
+  intro l
+  induction l with
+  | nil => intro a ha _; simpa using ha
+  | cons x xs ih =>
+    intro a ha h
+    simp only [List.foldl_cons]
+    exact ih _ (add_pos ha (h x (by simp))) (fun w hw => h w (by simp [hw]))
+
+theorem weightsLegal_of_pos (N : Num F) (hfin : ∀ x, N.fin x = true) (ws : List F) (hne : ws ≠ [])
+    (hpos : ∀ w ∈ ws, 0 < w) : weightsLegal N ws = true := by
+  cases ws with
+  | nil => exact absurd rfl hne
+  | cons w rest =>
+    simp only [weightsLegal, Bool.and_eq_true, List.all_eq_true, decide_eq_true_eq, hfin, and_true]
+    exact ⟨fun x hx => (hpos x hx).le, foldl_add_pos rest w (hpos w (by simp)) (fun x hx => hpos x (by simp [hx]))⟩
+
+theorem sampleGo_no_panic (N : Num F) (hfin : ∀ x, N.fin x = true) (hpow : ∀ x a, 0 ≤ x → 0 ≤ N.pow x a)
+    (heps : 0 < N.eps) (pm : PM F) (hwf : pm.wf = true) (hnn : ∀ x ∈ pm.inner, 0 ≤ x)
+    (dist : Nat → Nat → F) (hd : ∀ i j, i ≠ j → 0 < dist i j) (α β : F) :
+    ∀ (ks route : List Nat) (last : Nat) (remaining : List Nat),
+      last < pm.dim → (∀ r ∈ remaining, r < pm.dim ∧ r ≠ last) → remaining.Nodup →
+      sampleGo N pm dist α β ks route last remaining ≠ .panic := by
+  intro ks
+  induction ks with
+  | nil => intro route last remaining _ _ _; simp only [sampleGo]; split <;> simp
+  | cons k ks ih =>
+    intro route last remaining hl hr hnd
+    simp only [sampleGo]
+    split
+    · simp
+    · rename_i hne
+      obtain ⟨ws, hws, hlen, hpos⟩ := weights_pos N hpow heps pm hwf hnn dist α β last hl remaining
+        (fun r h => ⟨(hr r h).1, hd last r (fun e => (hr r h).2 e.symm)⟩)
+      have hne' : ws ≠ [] := by
+        intro e; rw [e] at hlen
+        have : remaining = [] := List.length_eq_zero_iff.mp hlen.symm
+        simp [this] at hne
+      rw [hws]
+      simp only [weightsLegal_of_pos N hfin ws hne' hpos, if_true]
+      cases hc : remaining[k]? with
+      | none => simp
+      | some c =>
+        simp only
+        have hcm : c ∈ remaining := List.mem_of_getElem? hc
+        apply ih _ _ _ (hr c hcm).1
+        · intro r hr'
+          obtain ⟨h1, h2⟩ := mem_eraseIdx_of_nodup hnd hc r hr'
+          exact ⟨(hr r h1).1, h2⟩
+        · exact hnd.sublist (List.eraseIdx_sublist _ _)
+
+end field
+
+theorem allEntries_iff (n : Nat) (p : Nat → Nat → Bool) :
+    allEntries n p = true ↔ ∀ i, i < n → ∀ j, j < n → p i j = true := by
+  simp [allEntries]
+
+theorem remaining0_mem {n r : Nat} (h : r ∈ remaining0 n) : r < n ∧ r ≠ 0 := by
+  simp [remaining0, List.mem_range'] at h
+  omega
+
+theorem remaining0_nodup (n : Nat) : (remaining0 n).Nodup := by simp [remaining0, List.nodup_range']
+
 end MahfModel.Aco
